@@ -69,6 +69,12 @@ def value_classes(rng, name, dom, f_inputs, chain=False):
         if dom[1] == ():
             out.append(("real-affine", ("bin", "add", (), ("bin", "mul", (), ("var", "u", dom), ("num", 0.5, "real")), ("num", 0.25, "real"))))
             out.append(("real-self-affine", ("bin", "add", (), ("var", name, dom), ("num", 1.0, "real"))))
+            # values that mention ANOTHER real input of the subject (which may itself be substituted in the same map)
+            for other, od in f_inputs.items():
+                if other != name and od == dom:
+                    out.append(("real-other-input-var", ("var", other, dom)))
+                    out.append(("real-other-input-affine", ("bin", "add", (), ("bin", "mul", (), ("var", other, dom), ("num", 2.0, "real")), ("num", -0.5, "real"))))
+                    out.append(("real-mixed-affine", ("bin", "add", (), ("bin", "mul", (), ("var", other, dom), ("num", 1.5, "real")), ("var", name, dom))))
         else:
             out.append(("real-affine", ("bin", "add", (), ("var", "u", dom), ("ten", _data(rng, dom[1]), (), "real"))))
         return out
